@@ -168,7 +168,7 @@ theorem percent_encoding_preserved_partial {β} (c : Int) (html : String) (t : T
 /-- **strip_cut_counts.** The cut that goes with a strip option, for EVERY escaped path `s` (valid or not: a `%` at the
 end, `%zz`, raw bytes) and every count `n`: `dropEscaped n s` is a suffix of `s`, and the prefix cut off stands for
 exactly `n` decoded bytes — all of them when the path has fewer — in the specification's way of counting
-(`C07Spec.decodedCount`, what `c07.esclen` evaluates on the real `escapedLen`). For validly encoded paths
+(`C07Spec.decodedCount`; `Props/C07Xlate.lean xescapedLen_count` states the same of the Go function as translated). For validly encoded paths
 `dropEscaped_spec` says more (the prefix *decodes* to the first `n` bytes). -/
 theorem strip_cut_counts (n : Nat) (s : Bytes) :
     ∃ a, s = a ++ dropEscaped n s ∧ decodedCount a = min n (decodedCount s) := dropEscaped_count n s
